@@ -132,7 +132,7 @@ func c05Catalogue(gwNS string, plus bool) []c05Exotic {
 			Rules: []v1alpha2.TLSRouteRule{{BackendRefs: []v1alpha2.BackendRef{vsBackendObj(vsBackend{Name: "svc-a", Port: 80, Weight: 1})}}}}}},
 		{"tlsroute-two-backends", &v1alpha2.TLSRoute{ObjectMeta: meta(gwNS, "x-tls2"), Spec: v1alpha2.TLSRouteSpec{
 			CommonRouteSpec: v1alpha2.CommonRouteSpec{ParentRefs: gwParent},
-			Rules: []v1alpha2.TLSRouteRule{{BackendRefs: []v1alpha2.BackendRef{vsBackendObj(vsBackend{Name: "svc-a", Port: 80, Weight: 1}), vsBackendObj(vsBackend{Name: "missing", Port: 80, Weight: 1})}}}}}},
+			Rules:           []v1alpha2.TLSRouteRule{{BackendRefs: []v1alpha2.BackendRef{vsBackendObj(vsBackend{Name: "svc-a", Port: 80, Weight: 1}), vsBackendObj(vsBackend{Name: "missing", Port: 80, Weight: 1})}}}}}},
 		{"gateway-exotic-listeners", &gatewayv1.Gateway{ObjectMeta: meta(gwNS, "gw-exotic"), Spec: gatewayv1.GatewaySpec{GatewayClassName: vpClassName,
 			Addresses: []gatewayv1.GatewayAddress{{Value: "10.1.1.1"}},
 			Listeners: []gatewayv1.Listener{
